@@ -93,17 +93,17 @@ fn lcm(a: i64, b: i64) -> i64 {
     a / gcd(a, b) * b
 }
 
-struct BuiltStack {
-    stack: Stack,
-    r: RStack,
-    metal_keys: Vec<raw::LayerKey>,
-    via_keys: Vec<raw::LayerKey>,
+pub struct BuiltStack {
+    pub stack: Stack,
+    pub r: RStack,
+    pub metal_keys: Vec<raw::LayerKey>,
+    pub via_keys: Vec<raw::LayerKey>,
     /// multiples (in primitive pitches) every outline/instance dimension must have per axis
-    lx: i64,
-    ly: i64,
+    pub lx: i64,
+    pub ly: i64,
 }
 
-fn gen_stack(rng: &mut Rng) -> BuiltStack {
+pub fn gen_stack(rng: &mut Rng) -> BuiltStack {
     let nmetals = 2 + rng.usize(4);
     let px = *rng.pick(&[24i64, 40, 60, 100]);
     let py = *rng.pick(&[24i64, 40, 60, 100]);
@@ -241,7 +241,7 @@ fn gen_stack(rng: &mut Rng) -> BuiltStack {
 // ------------------------------------------------------------------ cells
 
 #[derive(Clone, Debug)]
-struct RInst {
+pub struct RInst {
     name: String,
     sub: usize,
     /// bounding box in primitive pitches (x0, y0, x1, y1)
@@ -250,7 +250,7 @@ struct RInst {
     rv: bool,
 }
 #[derive(Clone, Debug)]
-struct RCell {
+pub struct RCell {
     metals: usize,
     nx: i64,
     ny: i64,
@@ -308,7 +308,7 @@ fn pieces(span: i64, removed: &[(i64, i64)]) -> Vec<(i64, i64)> {
     out
 }
 
-fn gen_cell(rng: &mut Rng, b: &BuiltStack, with_insts: bool) -> RCell {
+pub fn gen_cell(rng: &mut Rng, b: &BuiltStack, with_insts: bool) -> RCell {
     let r = &b.r;
     let metals = 1 + rng.usize(r.metals.len());
     let (rx, ry) = if with_insts { (rng.range(2, 5), rng.range(2, 5)) } else { (rng.range(1, 3), rng.range(1, 3)) };
@@ -461,7 +461,7 @@ fn expected(r: &RStack, cell: &RCell) -> Vec<OutRect> {
     out
 }
 
-fn build_lib(b: &BuiltStack, cell: &RCell) -> Library {
+pub fn build_lib(b: &BuiltStack, cell: &RCell) -> Library {
     let mut lib = Library::new("c08lib");
     let subs: Vec<Ptr<Cell>> = cell.subs.iter().enumerate().map(|(i, s)| lib.cells.add(Layout::new(format!("sub{}", i), s.0, Outline::rect(s.1 as isize, s.2 as isize).unwrap()))).collect();
     let mut lay = Layout::new("top", cell.metals, Outline::rect(cell.nx as isize, cell.ny as isize).unwrap());
